@@ -1,7 +1,7 @@
 (* C11 proofs: the statements used by Props/C11.v *)
 From Coq Require Import NArith ZArith List Bool Lia Permutation Arith.
 From LV Require Import Model.C11 Model.C11Spec Proofs.C11Base Proofs.C11Join Proofs.C11Add Proofs.C11Sort
-  Proofs.C11Fuel Proofs.C11Run Proofs.C11Find.
+  Proofs.C11Fuel Proofs.C11Run Proofs.C11Find Proofs.C11Sys.
 Import ListNotations.
 Local Open Scope N_scope.
 
@@ -81,6 +81,45 @@ Proof.
   destruct (add_peer true own e FUEL (run own ops) p) as [[r pr] t']. cbn.
   destruct H as (_ & _ & H1 & H2 & _). specialize (H1 Cn). subst r. eauto.
 Qed.
+
+Lemma remove_exact own ops p :
+  own < M -> Forall op_valid ops -> pid p < M ->
+  snd (step true own (run own ops) (Remove p)) = ORemove true /\
+  forall x, In x (contacts (fst (step true own (run own ops) (Remove p)))) <-> In x (contacts (run own ops)) /\ x <> p.
+Proof.
+  intros Ho V Hp. cbn [step].
+  destruct (remove_peer_spec own _ p (run_wf own ops Ho V)) as (t' & E & W' & Sb & Np & Kp).
+  { apply dist_lt_M; assumption. }
+  rewrite E. cbn. split; [reflexivity |]. intros x. split.
+  - intros Hx. split; [eapply sub_In; eauto | intros ->; contradiction].
+  - intros (Hx & Nx). apply Kp; assumption.
+Qed.
+
+Lemma get_peer_exact own ops id :
+  own < M -> Forall op_valid ops -> id < M ->
+  exists r, get_peer own (run own ops) id = Some r /\
+    match r with
+    | Some q => In q (contacts (run own ops)) /\ pid q = id
+    | None => forall q, In q (contacts (run own ops)) -> pid q <> id
+    end.
+Proof.
+  intros Ho V Hi. pose proof (run_wf own ops Ho V) as W. pose proof W as [C OK _ _]. unfold get_peer.
+  destruct (find_bucket_chain own id 0 _ M C) as (pre & b & post & F).
+  { split; [lia | apply dist_lt_M; assumption]. }
+  rewrite F. eexists. split; [reflexivity |].
+  pose proof (find_bucket_some _ _ _ _ _ _ F) as (Et & _ & _).
+  destruct (find (fun q => pid q =? id) (bpeers b)) as [q |] eqn:Fd.
+  - apply find_some in Fd. destruct Fd as (Hq & Eq). apply N.eqb_eq in Eq. split; [| exact Eq].
+    rewrite Et, contacts_mid. apply in_or_app. right. apply in_or_app. left. exact Hq.
+  - intros q Hq Eq. pose proof (in_contacts_found own _ id pre b post q C OK F Hq Eq) as Hb.
+    pose proof (find_none _ _ Fd q Hb) as Hn. cbn in Hn. apply N.eqb_neq in Hn. contradiction.
+Qed.
+
+Lemma sys_wellformed own sops :
+  own < M -> Forall sop_valid sops ->
+  chain 0 (s_tab (sys_run own sops)) M /\ Forall (bucket_ok own) (s_tab (sys_run own sops)) /\
+  NoDup (map pid (contacts (s_tab (sys_run own sops)))) /\ NoDup (map pkey (contacts (s_tab (sys_run own sops)))).
+Proof. intros Ho V. destruct (pm_refines own sops V) as (ops & Vo & ->). apply wellformed; assumption. Qed.
 
 (* ---------- the old _join_buckets (range_max = midpoint - 1) ---------- *)
 Definition env0 : env := mkEnv (fun _ => false) (fun _ => Stale) (fun _ => true).
